@@ -1,8 +1,10 @@
 package scen
 
 import (
+	"encoding/json"
 	"fmt"
 	"math/rand"
+	"os"
 )
 
 // SParams tunes the online history generator of the stream core.
@@ -107,7 +109,15 @@ func GenRun(rng *rand.Rand, p SParams) *SHistory {
 	down, lateLeft := false, p.LateOps // the teardown has run; ops that may still arrive afterwards
 	stopped := false                   // stopCh closed: the client is shutting down, only its close / a restart may follow
 	exec := func(op SOp) []SOut {
+		if os.Getenv("VH_TRACE") != "" {
+			b, _ := json.Marshal(op)
+			fmt.Fprintf(os.Stderr, "OP %s\n", b)
+		}
 		outs := d.Exec(op)
+		if os.Getenv("VH_TRACE") != "" {
+			b, _ := json.Marshal(outs)
+			fmt.Fprintf(os.Stderr, "  -> %s\n", b)
+		}
 		h.Ops = append(h.Ops, op)
 		h.Outs = append(h.Outs, outs)
 		for _, o := range outs {
@@ -279,7 +289,8 @@ func GenRun(rng *rand.Rand, p SParams) *SHistory {
 				case r < p.PMalformed:
 					// outside the snapshot in force
 					seq := g.next + 5
-					if g.inSnap {
+					if g.inSnap || seq <= g.snapEnd {
+						// (the observer keeps the last announced snapshot until the next marker, also when the generator has left it)
 						seq = g.snapEnd + 1 + uint64(rng.Intn(3))
 					}
 					if rng.Intn(2) == 0 {
